@@ -14,7 +14,11 @@ check : (a) generated valid modules built with the REAL ppci.wasm.components API
         exception class) = Lean reader outcome; for every input the Lean strict reader calls canonical the
         real read->write must reproduce the bytes;
         (c) text: Module.to_string() -> text parser -> to_bytes() equals the binary (real code only, the
-        text layer is not modelled).
+        text layer is not modelled); (d) WAT sources written as text (generator + fixed corpus, not built through the
+        components API) mixing explicit $ids and anonymous definitions in every index space, inline elem/data/import/export
+        abbreviations, references by name and by index: text -> bytes equals the bytes of the same module written with
+        numeric indices only, equals an independently hand-assembled binary, and text -> Module -> to_string -> Module
+        gives the same bytes.
 No reference engine / wat2wasm / spec test-suite exists in the sandbox: the last clause of the property
 (accepted by a reference engine) is NOT evaluated."""
 import io
@@ -43,8 +47,12 @@ LEVEL_TEXT = (
     "module m and the writer's bytes for m are exactly bs; Canon is exactly the image of the writer - this is the first clause of C21 on the "
     "model, in full. Section framing (id,size,payload), vectors, names, limits, types, import/export descriptors, instructions, expressions and "
     "every LEB immediate (u32/s32/s64 via the C20 theorems) are separate theorems; the table facts (opcodes unique, every mnemonic has one "
-    "encoding that decodes to itself, types one byte) are decide +kernel over the regenerated tables. NOT covered by proof: the text format "
-    "(Module.to_string / text parser) - evaluated on the real code only; acceptance by a reference engine / agreement with a reference "
+    "encoding that decodes to itself, types one byte) are decide +kernel over the regenerated tables. Text layer: only the id-assignment rule of "
+    "the WAT parser is modelled (Model.WatIds, tied by correspondence): a generated id $n is the index of its definition, accepted ids resolve "
+    "to the definition's index, and the '$0 means index 0' convention of Ref.is_zero / the text writer is sound when no user id has the form "
+    "$<decimal> (wat_auto_id_is_index, wat_resolve_index, wat_is_zero_sound). Everything else of the text format (Module.to_string / text "
+    "parser) is NOT covered by proof - evaluated on the real code only (modules read from binary, generated WAT sources mixing named/anonymous "
+    "definitions and inline abbreviations, compared with all-numeric sources and hand-assembled binaries); acceptance by a reference engine / agreement with a reference "
     "assembler - no wasmtime, wabt, wat2wasm or spec test-suite is available in the sandbox, nothing is claimed for that clause."
 )
 LEVEL_NOTE = (
@@ -74,6 +82,7 @@ TRUSTED = [
     "Gen.WasmOpcodes: dump of OPCODES/REVERZ/OPERANDS/LANG_TYPES/LANG_TYPES_REVERSE as search trees by harness/c21.py regen(); the bounds the model adds to the reverse lookups (keys < 256, sub-opcodes < maxSub) are asserted at dump time",
     "the S-expression canonicaliser of the harness (Python module -> text) and the driver's parser/printer",
     "C20: Model.Leb128 and its theorems (imported)",
+    "hand model Model.WatIds of the WAT parser's id assignment (gen_id evaluated for every definition; resolve_references; Ref.is_zero), tied by differential run over named/anonymous/$N patterns in five index spaces",
 ]
 ASSUMPTIONS = [
     "bytes.decode('utf-8') accepts exactly well-formed UTF-8 (Unicode table 3-7) and str.encode inverts it",
@@ -1341,8 +1350,6 @@ def check(ctx):
         # ---- text form (real code only)
         if any(d.__name__ in ("custom", "datacount") for d in m2.definitions):
             ctx.count("text_skipped_custom_or_datacount")   # Custom/DataCount have no text form in ppci (to_string raises by design)
-        elif any(d.__name__ == "data" and d.mode and d.mode[0].index > 0 for d in m2.definitions):
-            ctx.count("text_skipped_multi_memory")          # memory index > 0 is post-MVP; the text writer has no syntax for it
         else:
             ctx.count("eval_text")
             st, val, s = text_roundtrip(m2)
@@ -1439,6 +1446,51 @@ def check(ctx):
         if valid and not any(d.__name__ in ("custom", "datacount") for d in m2.definitions):
             text_check(lab, m2, b)
 
+    # ---------------- WAT sources (not built through the components API) -----------------------
+    for lab, text, numeric_text in WAT_FIXED:
+        check_wat(ctx, "fixed:" + lab, text + "\n", numeric_text + "\n", None)
+    n_wat = 400 if thorough else 60
+    for k in range(n_wat):
+        sub = random.Random(rng.getrandbits(64))
+        g = WatGen(sub, multi=(k % 3 == 0), names=[None, None, "first", "later"][k % 4])
+        S = g.build()
+        text, _, _, _ = g.render(S, False)
+        numeric_text, ex, el, da = g.render(S, True)
+        hand = g.assemble(S, ex, el, da)
+        ctx.count("wat_hand_assembled" if hand is not None else "wat_numeric_only")
+        b1 = check_wat(ctx, f"wat{k}", text, numeric_text, hand)
+        if b1 is not None:
+            m2, err = py_read(b1)
+            ask("read " + hexs(b1), "reader", f"wat{k}", "ok " + sx_module(m2) if m2 is not None else err)
+            if len(ctx.samples) < 4 and k < 2:
+                ctx.sample({"wat": text[:700]})
+
+    # ---------------- WAT id assignment: Model.WatIds vs the real parser ------------------------
+    from ppci.wasm.components import Ref as _Ref
+    forms = {"type": lambda i: f"(type{i} (func))", "func": lambda i: f"(func{i} (type 0))", "table": lambda i: f"(table{i} 1 funcref)",
+             "memory": lambda i: f"(memory{i} 1)", "global": lambda i: f"(global{i} i32 i32.const 0)"}
+    pats = [[None], ["u"], ["u", None], [None, "u"], ["u", None, None], [None, "u", None], ["a0"], ["a1", None], [None, "a0"], ["u", "a0"],
+            ["a1", "a0"], [None, None, "a1"], ["u", "u2", None, "a3"]]
+    for _ in range(150 if thorough else 25):
+        pats.append([rng.choice([None, None, "u", "u", f"a{rng.randrange(4)}"]) for _ in range(rng.randint(1, 5))])
+    for pat in pats:
+        pat = [f"u{k}" if p == "u" else p for k, p in enumerate(pat)]
+        for space in ("table", "memory", "global", "func", "type"):
+            ctx.count("eval_wat_ids")
+            text = "(module" + ("" if space == "type" else " (type (func))")
+            text += "".join(" " + forms[space]("" if p is None else (" $n" + p[1:] if p[0] == "u" else " $" + p[1:])) for p in pat) + ")"
+            try:
+                ids = [d.id for d in Module(text).definitions if d.__name__ == space]
+                impl = "ok " + ",".join("a" + i[1:] if i[1:].isdigit() else "u" + i[2:] for i in ids)
+            except Exception as e:  # noqa
+                ids, impl = None, "err " + type(e).__name__
+            ask("ids " + " ".join("_" if p is None else p for p in pat), "wat-ids", f"{space}:{pat}", impl)
+            if ids is not None and not any(p and p[0] == "a" for p in pat) and space in ("table", "memory"):
+                for i, name in enumerate(ids):
+                    if _Ref(space, name=name).is_zero and i != 0:
+                        ctx.fail("text:dollar0-id-not-index0", f"the {space} with id {name} ('is_zero': the text writer omits its use) has index {i}",
+                                 f"{space}:{pat}", text=text)
+
     # ---------------- (b) non-canonical and damaged inputs ------------------------------------
     inputs = list(CORPUS_BYTES)
     per = 3 if thorough else 1
@@ -1518,3 +1570,472 @@ def search(ctx):
     """proof obligations no longer build (e.g. tables_sane is false for the regenerated tables): the model and the driver
     do not depend on Props, so the full differential run + property evaluation still looks for a concrete failing input"""
     check(ctx)
+
+
+# ----------------------------------------------------------------------------------------------
+# text modules written as WAT source (not built through the components API): explicit $ids and anonymous definitions mixed in
+# every index space, inline abbreviations, references by name and by index.  From one abstract description three things are
+# rendered: the mixed WAT, a flat all-numeric WAT (no names, no abbreviations) and - where ppci's binary encoding is the
+# standard one (element segments on table 0 only) - the bytes from the hand assembler above.
+def wat_str(b):
+    return '"' + "".join(chr(c) if 32 <= c < 127 and c not in (34, 92) else "\\%02x" % c for c in b) + '"'
+
+
+class WatGen:
+    def __init__(self, rng, multi=False, names=None):
+        self.r = rng
+        self.multi = multi
+        self.names_mode = names        # None: coin per definition; "first": first of each space named, later ones anonymous
+
+    def nm(self, space, k, pos):
+        """optional $id for definition `pos` of an index space"""
+        r = self.r
+        if self.names_mode == "first":
+            named = pos == 0
+        elif self.names_mode == "later":
+            named = pos > 0
+        else:
+            named = r.random() < 0.5
+        return f"${space}_{k}{r.choice('abcxyz')}" if named else None
+
+    def build(self):
+        r = self.r
+        S = {}
+        S["types"] = [{"name": self.nm("sig", i, i), "params": ["i32"] * r.choice([0, 1, 2]), "results": ["i32"] * r.choice([0, 1])}
+                      for i in range(r.randint(1, 4))]
+        nt = len(S["types"])
+        S["fimports"] = [{"name": None, "type": r.randrange(nt), "inline": r.random() < 0.5, "mod": "env", "field": f"f{i}"}
+                         for i in range(r.choice([0, 0, 1, 2]))]
+        S["gimports"] = [{"name": None, "t": "i32", "mut": False, "inline": r.random() < 0.5, "mod": "env", "field": f"g{i}"}
+                         for i in range(r.choice([0, 0, 1, 2]))]
+        ntab = r.choice([1, 2, 3]) if self.multi else r.choice([0, 1, 1])
+        nmem = r.choice([1, 2, 3]) if self.multi else r.choice([0, 1, 1])
+        nfunc = r.randint(1, 4)
+        nf_total = len(S["fimports"]) + nfunc
+        S["tables"] = []
+        for i in range(ntab):
+            imp = i == 0 and r.random() < 0.2
+            t = {"name": None, "import": ("env", f"t{i}") if imp else None, "inline": r.random() < 0.5, "exports": []}
+            if not imp and r.random() < 0.5:
+                t["inline_elem"] = [r.randrange(nf_total) for _ in range(r.choice([0, 1, 2, 3]))]
+                t["min"] = t["max"] = len(t["inline_elem"])
+            else:
+                t["inline_elem"] = None
+                t["min"] = r.choice([0, 1, 4, 64, 128])
+                t["max"] = r.choice([None, t["min"], t["min"] + 5])
+            if not imp and r.random() < 0.3:
+                t["exports"] = [f"tab{i}"]
+            S["tables"].append(t)
+        S["memories"] = []
+        for i in range(nmem):
+            imp = i == 0 and r.random() < 0.2
+            m = {"name": None, "import": ("env", f"m{i}") if imp else None, "inline": r.random() < 0.5, "exports": []}
+            if not imp and r.random() < 0.5:
+                m["inline_data"] = bytes(r.choice(b"abc$\"\\\x00\xff xyz") for _ in range(r.choice([0, 1, 3, 8])))
+                m["min"] = m["max"] = 1 if m["inline_data"] else 0
+            else:
+                m["inline_data"] = None
+                m["min"] = r.choice([0, 1, 2, 64])
+                m["max"] = r.choice([None, m["min"], m["min"] + 3])
+            if not imp and r.random() < 0.3:
+                m["exports"] = [f"mem{i}"]
+            S["memories"].append(m)
+        S["globals"] = []
+        for i in range(r.choice([0, 1, 2, 3])):
+            imm = [k for k, g in enumerate(S["gimports"])]
+            init = ("get", r.choice(imm)) if imm and r.random() < 0.3 else ("const", r.choice([0, 1, -1, 63, 64, -65, 8192, 2**31 - 1, -2**31]))
+            S["globals"].append({"name": None, "t": "i32", "mut": r.random() < 0.6, "init": init,
+                                 "exports": [f"glob{i}"] if r.random() < 0.3 else []})
+        # names: one coin sequence per index space, over imports + definitions in index order
+        for space, lists in (("f", [S["fimports"]]), ("g", [S["gimports"], S["globals"]]), ("t", [S["tables"]]), ("m", [S["memories"]])):
+            pos = 0
+            for l in lists:
+                for d in l:
+                    d["name"] = self.nm(space, pos, pos)
+                    pos += 1
+        ng_total = len(S["gimports"]) + len(S["globals"])
+        S["funcs"] = []
+        for i in range(nfunc):
+            ti = r.randrange(nt)
+            locs = [(f"$l{k}" if r.random() < 0.5 else None, "i32") for k in range(r.choice([0, 1, 2, 3]))]
+            f = {"name": self.nm("f", len(S["fimports"]) + i, len(S["fimports"]) + i), "type": ti, "locals": locs,
+                 "exports": [f"fn{i}"] if r.random() < 0.3 else []}
+            f["body"] = self.body(S, ti, locs, nf_total, ng_total, depth=2)
+            S["funcs"].append(f)
+        S["exports"] = []
+        for i in range(r.choice([0, 1, 2])):
+            kind = r.choice(["func", "table", "memory", "global"])
+            n = {"func": nf_total, "table": ntab, "memory": nmem, "global": ng_total}[kind]
+            if n:
+                S["exports"].append((f"ex{i}", kind, r.randrange(n)))
+        void = [len(S["fimports"]) + i for i, f in enumerate(S["funcs"]) if not S["types"][f["type"]]["params"] and not S["types"][f["type"]]["results"]]
+        S["start"] = r.choice(void) if void and r.random() < 0.4 else None
+        S["elems"] = []
+        if ntab:
+            for i in range(r.choice([0, 1, 2])):
+                S["elems"].append({"name": self.nm("e", i, i), "table": r.randrange(ntab), "offset": r.choice([0, 1, 63, 64, 128]),
+                                   "refs": [r.randrange(nf_total) for _ in range(r.choice([0, 1, 2]))],
+                                   "explicit": r.random() < 0.5, "form": r.choice(["offset", "instr"])})
+        S["datas"] = []
+        if nmem:
+            for i in range(r.choice([0, 1, 2])):
+                passive = r.random() < 0.2
+                S["datas"].append({"name": self.nm("d", i, i), "memory": None if passive else r.randrange(nmem), "offset": r.choice([0, 8, 64, 65536]),
+                                   "bytes": bytes(r.choice(b"$ab\"\\\x00\x7f\x80") for _ in range(r.choice([0, 1, 4]))),
+                                   "explicit": r.random() < 0.5, "form": r.choice(["offset", "instr"])})
+        return S
+
+    def body(self, S, ti, locs, nf, ng, depth, labels=()):
+        """stack-neutral statements, then the result value"""
+        r = self.r
+        npar = len(S["types"][ti]["params"])
+        nloc = npar + len(locs)
+        out = []
+
+        def sig_of(fi):
+            if fi < len(S["fimports"]):
+                return S["types"][S["fimports"][fi]["type"]]
+            return S["types"][S["funcs"][fi - len(S["fimports"])]["type"]] if fi - len(S["fimports"]) < len(S["funcs"]) else None
+        for _ in range(r.randint(0, 4)):
+            k = r.randrange(9)
+            if k == 0:
+                out += [("i32.const", r.choice([0, 1, -1, 64, -65, 300])), ("drop",)]
+            elif k == 1 and nloc:
+                out += [("local.get", r.randrange(nloc)), ("drop",)]
+            elif k == 2 and nloc:
+                out += [("i32.const", r.randrange(100)), ("local.set", r.randrange(nloc))]
+            elif k == 3 and ng:
+                out += [("global.get", r.randrange(ng)), ("drop",)]
+            elif k == 4:
+                mut = [len(S["gimports"]) + i for i, g in enumerate(S["globals"]) if g["mut"]]
+                if mut:
+                    out += [("i32.const", 7), ("global.set", r.choice(mut))]
+            elif k == 5:
+                fi = r.randrange(nf)
+                sg = sig_of(fi)
+                if sg is not None:
+                    out += [("i32.const", 1)] * len(sg["params"]) + [("call", fi)] + [("drop",)] * len(sg["results"])
+            elif k == 6 and S["tables"]:
+                t2 = r.randrange(len(S["types"]))
+                sg = S["types"][t2]
+                out += [("i32.const", 2)] * len(sg["params"]) + [("i32.const", 0), ("call_indirect", t2)] + [("drop",)] * len(sg["results"])
+            elif k == 7 and depth > 0:
+                lab = f"$L{len(labels)}" if r.random() < 0.5 else None
+                inner = self.body(S, ti, locs, nf, ng, depth - 1, labels + (lab,))
+                inner = [x for x in inner]
+                if r.random() < 0.6:
+                    inner += [("i32.const", 0), ("br_if", r.randrange(len(labels) + 1))]
+                out += [(r.choice(["block", "loop"]), lab, inner)]
+            elif k == 8 and S["memories"]:
+                out += [("i32.const", 0), ("i32.load", r.choice([0, 1, 2]), r.choice([0, 4, 64])), ("drop",)]
+        if not labels:
+            out += [("i32.const", 5)] * len(S["types"][ti]["results"])
+        return out
+
+    # ---- rendering
+    def render(self, S, numeric):
+        r = self.r
+
+        def ref(space, idx):
+            """reference to definition idx of an index space: by name when it has one (coin), else by index"""
+            if numeric:
+                return str(idx)
+            lists = {"type": [S["types"]], "func": [S["fimports"], S["funcs"]], "global": [S["gimports"], S["globals"]],
+                     "table": [S["tables"]], "memory": [S["memories"]]}[space]
+            flat = [d for l in lists for d in l]
+            n = flat[idx]["name"]
+            return n if n and r.random() < 0.7 else str(idx)
+
+        def idn(d):
+            return "" if numeric or not d["name"] else " " + d["name"]
+
+        def lim(d):
+            return f"{d['min']}" + ("" if d["max"] is None else f" {d['max']}")
+
+        def instrs(body, f, labels=()):
+            npar = len(S["types"][f["type"]]["params"])
+            out = []
+            for ins in body:
+                op = ins[0]
+                if op in ("block", "loop"):
+                    lab = None if numeric else ins[1]
+                    out.append(op + (f" {lab}" if lab else ""))
+                    out += instrs(ins[2], f, labels + (lab,))
+                    out.append("end")
+                elif op in ("br", "br_if"):
+                    d = ins[1]
+                    lab = labels[len(labels) - 1 - d] if d < len(labels) else None
+                    out.append(f"{op} {lab if lab and r.random() < 0.7 else d}")
+                elif op in ("local.get", "local.set"):
+                    i = ins[1]
+                    nm = f["locals"][i - npar][0] if i >= npar else None
+                    out.append(f"{op} {nm if nm and not numeric and r.random() < 0.7 else i}")
+                elif op in ("global.get", "global.set"):
+                    out.append(f"{op} {ref('global', ins[1])}")
+                elif op == "call":
+                    out.append(f"call {ref('func', ins[1])}")
+                elif op == "call_indirect":
+                    out.append(f"call_indirect (type {ref('type', ins[1])})")
+                elif op == "i32.load":
+                    nat = 2
+                    a = []
+                    if ins[2]:
+                        a.append(f"offset={ins[2]}")
+                    if ins[1] != nat:
+                        a.append(f"align={2 ** ins[1]}")
+                    out.append(" ".join(["i32.load"] + a))
+                else:
+                    out.append(" ".join(str(x) for x in ins))
+            return out
+        L = ["(module"]
+        for t in S["types"]:
+            ps = f" (param {' '.join(t['params'])})" if t["params"] else ""
+            rs = f" (result {' '.join(t['results'])})" if t["results"] else ""
+            L.append(f"  (type{idn(t)} (func{ps}{rs}))")
+        for d in S["fimports"]:
+            if d["inline"] and not numeric:
+                L.append(f"  (func{idn(d)} (import \"{d['mod']}\" \"{d['field']}\") (type {ref('type', d['type'])}))")
+            else:
+                L.append(f"  (import \"{d['mod']}\" \"{d['field']}\" (func{idn(d)} (type {ref('type', d['type'])})))")
+        for d in S["tables"]:
+            if d["import"]:
+                if d["inline"] and not numeric:
+                    L.append(f"  (table{idn(d)} (import \"{d['import'][0]}\" \"{d['import'][1]}\") {lim(d)} funcref)")
+                else:
+                    L.append(f"  (import \"{d['import'][0]}\" \"{d['import'][1]}\" (table{idn(d)} {lim(d)} funcref))")
+        for d in S["memories"]:
+            if d["import"]:
+                if d["inline"] and not numeric:
+                    L.append(f"  (memory{idn(d)} (import \"{d['import'][0]}\" \"{d['import'][1]}\") {lim(d)})")
+                else:
+                    L.append(f"  (import \"{d['import'][0]}\" \"{d['import'][1]}\" (memory{idn(d)} {lim(d)}))")
+        for d in S["gimports"]:
+            gt = f"(mut {d['t']})" if d["mut"] else d["t"]
+            if d["inline"] and not numeric:
+                L.append(f"  (global{idn(d)} (import \"{d['mod']}\" \"{d['field']}\") {gt})")
+            else:
+                L.append(f"  (import \"{d['mod']}\" \"{d['field']}\" (global{idn(d)} {gt}))")
+        exports, elems, datas = [], [], []
+        for i, d in enumerate(S["tables"]):
+            if d["import"]:
+                continue
+            ex = "" if numeric else "".join(f' (export "{e}")' for e in d["exports"])
+            exports += [(e, "table", i) for e in d["exports"]]
+            if d["inline_elem"] is not None:
+                elems.append({"table": i, "offset": 0, "refs": d["inline_elem"], "explicit": True, "form": "instr", "name": None})
+                if not numeric:
+                    L.append(f"  (table{idn(d)}{ex} funcref (elem{''.join(' ' + ref('func', x) for x in d['inline_elem'])}))")
+                    continue
+            L.append(f"  (table{idn(d)}{ex} {lim(d)} funcref)")
+        for i, d in enumerate(S["memories"]):
+            if d["import"]:
+                continue
+            ex = "" if numeric else "".join(f' (export "{e}")' for e in d["exports"])
+            exports += [(e, "memory", i) for e in d["exports"]]
+            if d["inline_data"] is not None:
+                datas.append({"memory": i, "offset": 0, "bytes": d["inline_data"], "explicit": True, "form": "instr", "name": None})
+                if not numeric:
+                    L.append(f"  (memory{idn(d)}{ex} (data {wat_str(d['inline_data'])}))")
+                    continue
+            L.append(f"  (memory{idn(d)}{ex} {lim(d)})")
+        for i, d in enumerate(S["globals"]):
+            gi = len(S["gimports"]) + i
+            ex = "" if numeric else "".join(f' (export "{e}")' for e in d["exports"])
+            exports += [(e, "global", gi) for e in d["exports"]]
+            gt = f"(mut {d['t']})" if d["mut"] else d["t"]
+            init = f"i32.const {d['init'][1]}" if d["init"][0] == "const" else f"global.get {ref('global', d['init'][1])}"
+            L.append(f"  (global{idn(d)}{ex} {gt} {init})")
+        for i, f in enumerate(S["funcs"]):
+            fi = len(S["fimports"]) + i
+            ex = "" if numeric else "".join(f' (export "{e}")' for e in f["exports"])
+            exports += [(e, "func", fi) for e in f["exports"]]
+            locs = "".join(f" (local{'' if numeric or not n else ' ' + n} {t})" for n, t in f["locals"])
+            L.append(f"  (func{idn(f)}{ex} (type {ref('type', f['type'])}){locs}")
+            L += ["    " + x for x in instrs(f["body"], f)]
+            L.append("  )")
+        exports += list(S["exports"])
+        for (e, kind, idx) in (exports if numeric else S["exports"]):
+            L.append(f"  (export \"{e}\" ({kind} {ref(kind, idx)}))")
+        if S["start"] is not None:
+            L.append(f"  (start {ref('func', S['start'])})")
+        elems += S["elems"]
+        for e in (elems if numeric else S["elems"]):
+            tab = f" (table {ref('table', e['table'])})" if (e["table"] != 0 or (e["explicit"] and not numeric)) else ""
+            off = f"(offset i32.const {e['offset']})" if (e["form"] == "offset" or numeric) else f"(i32.const {e['offset']})"
+            L.append(f"  (elem{idn(e)}{tab} {off}{''.join(' ' + ref('func', x) for x in e['refs'])})")
+        datas += S["datas"]
+        for d in (datas if numeric else S["datas"]):
+            if d["memory"] is None:
+                L.append(f"  (data{idn(d)} {wat_str(d['bytes'])})")
+                continue
+            mem = f" (memory {ref('memory', d['memory'])})" if (d["memory"] != 0 or (d["explicit"] and not numeric)) else ""
+            off = f"(offset i32.const {d['offset']})" if (d["form"] == "offset" or numeric) else f"(i32.const {d['offset']})"
+            L.append(f"  (data{idn(d)}{mem} {off} {wat_str(d['bytes'])})")
+        L.append(")")
+        return "\n".join(L) + "\n", exports, elems, datas
+
+    # ---- hand assembly (only for element segments on table 0: ppci writes the table index where the format has the flag)
+    def assemble(self, S, exports, elems, datas):
+        if any(e["table"] != 0 for e in elems):
+            return None
+
+        def code(body):
+            out = b""
+            for ins in body:
+                op = ins[0]
+                if op in ("block", "loop"):
+                    out += (b"\x02" if op == "block" else b"\x03") + b"\x40" + code(ins[2]) + b"\x0b"
+                elif op == "i32.const":
+                    out += b"\x41" + sleb(ins[1])
+                elif op == "i32.load":
+                    out += b"\x28" + uleb(ins[1]) + uleb(ins[2])
+                else:
+                    b = {"drop": b"\x1a", "nop": b"\x01", "local.get": b"\x20", "local.set": b"\x21", "global.get": b"\x23",
+                         "global.set": b"\x24", "call": b"\x10", "br": b"\x0c", "br_if": b"\x0d", "call_indirect": b"\x11"}[op]
+                    out += b + b"".join(uleb(x) for x in ins[1:]) + (b"\x00" if op == "call_indirect" else b"")
+            return out
+        secs = [a_sect(1, a_vec(a_functype(t["params"], t["results"]) for t in S["types"]))]
+        imps = [a_name(d["mod"]) + a_name(d["field"]) + b"\x00" + uleb(d["type"]) for d in S["fimports"]]
+        imps += [a_name(d["import"][0]) + a_name(d["import"][1]) + b"\x01\x70" + a_limits(d["min"], d["max"]) for d in S["tables"] if d["import"]]
+        imps += [a_name(d["import"][0]) + a_name(d["import"][1]) + b"\x02" + a_limits(d["min"], d["max"]) for d in S["memories"] if d["import"]]
+        imps += [a_name(d["mod"]) + a_name(d["field"]) + b"\x03" + VTB[d["t"]] + bytes([int(d["mut"])]) for d in S["gimports"]]
+        if imps:
+            secs.append(a_sect(2, a_vec(imps)))
+        secs.append(a_sect(3, a_vec(uleb(f["type"]) for f in S["funcs"])))
+        tabs = [b"\x70" + a_limits(d["min"], d["max"]) for d in S["tables"] if not d["import"]]
+        if tabs:
+            secs.append(a_sect(4, a_vec(tabs)))
+        mems = [a_limits(d["min"], d["max"]) for d in S["memories"] if not d["import"]]
+        if mems:
+            secs.append(a_sect(5, a_vec(mems)))
+        if S["globals"]:
+            secs.append(a_sect(6, a_vec(VTB[g["t"]] + bytes([int(g["mut"])]) +
+                                        (a_const("i32", g["init"][1]) if g["init"][0] == "const" else b"\x23" + uleb(g["init"][1]) + b"\x0b")
+                                        for g in S["globals"])))
+        if exports:
+            kk = {"func": 0, "table": 1, "memory": 2, "global": 3}
+            secs.append(a_sect(7, a_vec(a_name(e) + bytes([kk[k]]) + uleb(i) for e, k, i in exports)))
+        if S["start"] is not None:
+            secs.append(a_sect(8, uleb(S["start"])))
+        if elems:
+            secs.append(a_sect(9, a_vec(b"\x00" + a_const("i32", e["offset"]) + a_vec(uleb(x) for x in e["refs"]) for e in elems)))
+
+        def groups(locs):
+            return [(len(locs), "i32")] if locs else []
+        secs.append(a_sect(10, a_vec(a_code(groups(f["locals"]), code(f["body"])) for f in S["funcs"])))
+        if datas:
+            def dseg(d):
+                if d["memory"] is None:
+                    return b"\x01" + uleb(len(d["bytes"])) + d["bytes"]
+                pre = b"\x00" if d["memory"] == 0 else b"\x02" + uleb(d["memory"])
+                return pre + a_const("i32", d["offset"]) + uleb(len(d["bytes"])) + d["bytes"]
+            secs.append(a_sect(11, a_vec(dseg(d) for d in datas)))
+        return a_module(*secs)
+
+
+WAT_FIXED = [
+    # the round-3 seeded change: an explicitly named table/memory followed by an anonymous one with the inline abbreviation
+    ("named-then-anon-table", """(module
+  (type $sig (func (result i32)))
+  (table $dispatch 4 funcref)
+  (table funcref (elem $f $g))
+  (func $f (type $sig) i32.const 1)
+  (func $g (type $sig) i32.const 2)
+)""", """(module
+  (type (func (result i32)))
+  (table 4 funcref)
+  (table 2 2 funcref)
+  (elem (table 1) (offset i32.const 0) 0 1)
+  (func (type 0) i32.const 1)
+  (func (type 0) i32.const 2)
+)"""),
+    ("named-then-anon-memory", """(module
+  (memory $scratch 1)
+  (memory (data "xyz"))
+)""", """(module
+  (memory 1)
+  (memory 1 1)
+  (data (memory 1) (offset i32.const 0) "xyz")
+)"""),
+    ("anon-then-named", """(module
+  (type (func))
+  (type $t (func (param i32)))
+  (memory 1)
+  (memory $second 2)
+  (global i32 i32.const 1)
+  (global $g (mut i32) i32.const 2)
+  (func (type 0))
+  (func $named (type $t) global.get $g global.set 1 call 0)
+  (data (memory $second) (i32.const 8) "q")
+  (export "a" (func $named))
+  (export "b" (global 0))
+)""", """(module
+  (type (func))
+  (type (func (param i32)))
+  (memory 1)
+  (memory 2)
+  (global i32 i32.const 1)
+  (global (mut i32) i32.const 2)
+  (func (type 0))
+  (func (type 1) global.get 1 global.set 1 call 0)
+  (data (memory 1) (offset i32.const 8) "q")
+  (export "a" (func 1))
+  (export "b" (global 0))
+)"""),
+    ("named-import-then-anon-defs", """(module
+  (type $v (func))
+  (import "env" "f" (func $imp (type $v)))
+  (func (import "env" "g") (type 0))
+  (global $gi (import "env" "x") i32)
+  (global i32 global.get $gi)
+  (func (export "run") (type $v) call $imp call 1 call 2)
+  (start 2)
+)""", """(module
+  (type (func))
+  (import "env" "f" (func (type 0)))
+  (import "env" "g" (func (type 0)))
+  (import "env" "x" (global i32))
+  (global i32 global.get 0)
+  (func (type 0) call 0 call 1 call 2)
+  (export "run" (func 2))
+  (start 2)
+)"""),
+]
+
+
+def wat_bytes(text):
+    from ppci.wasm import Module
+    try:
+        m = Module(text)
+    except Exception as e:  # noqa
+        return None, None, "parse:" + type(e).__name__
+    try:
+        return m, m.to_bytes(), None
+    except Exception as e:  # noqa
+        return m, None, "write:" + type(e).__name__
+
+
+def check_wat(ctx, lab, text, numeric_text, hand):
+    """text -> bytes; = bytes of the all-numeric flat text; = hand-assembled bytes; text -> Module -> text -> Module -> same bytes"""
+    ctx.count("eval_wat_text")
+    ctx.nontrivial("wat:" + lab)
+    m1, b1, err = wat_bytes(text)
+    if err:
+        ctx.fail("text:wat-source-raises:" + err, f"a WAT source with mixed named/anonymous definitions: {err}", lab, text=text[:3000])
+        return None
+    mn, bn, errn = wat_bytes(numeric_text)
+    if errn:
+        ctx.fail("text:wat-numeric-source-raises:" + errn, f"the flat all-numeric WAT source: {errn}", lab, text=numeric_text[:3000])
+    elif bn != b1:
+        ctx.fail("text:named-vs-numeric-bytes-differ", "a WAT source using $ids / inline abbreviations gives other bytes than the same module "
+                 "written with numeric indices only", lab, text=text[:3000], numeric=numeric_text[:3000], bytes=b1.hex()[:3000], numeric_bytes=bn.hex()[:3000])
+    if hand is not None and hand != b1:
+        ctx.fail("text:wat-bytes-differ-from-hand-assembly", "the binary produced for a WAT source differs from the independently assembled "
+                 "binary of the same module", lab, text=text[:3000], bytes=b1.hex()[:3000], expected=hand.hex()[:3000])
+    st, val, s = text_roundtrip(m1)
+    if st != "ok":
+        ctx.fail(f"text:{st}-raises:{val}", f"text -> Module -> to_string -> Module: {st} raised {val}", lab, text=text[:3000], printed=(s or "")[:3000])
+    elif val != b1:
+        ctx.fail("text:reprint-reparse-bytes-differ", "Module(text).to_string() re-parses to a module with other bytes than Module(text)", lab,
+                 text=text[:3000], printed=s[:3000], bytes=b1.hex()[:3000], reparsed=val.hex()[:3000])
+    return b1
